@@ -1197,3 +1197,14 @@ func isNoReturnCallee(c *ssa.CallCommon) bool {
 	}
 	return false
 }
+
+// everyIteration: block B of loop lp is executed on every iteration that reaches a latch.
+func (ff *FuncFacts) everyIteration(B *ssa.BasicBlock, lp *Loop) bool {
+	reach := ff.reachFrom(lp.Header, B)
+	for _, lt := range lp.Latches {
+		if reach[lt] && lt != B && ff.reachWithin(lp, lp.Header, lt, B) {
+			return false
+		}
+	}
+	return true
+}
